@@ -628,7 +628,7 @@ def fasta_bytes(recs):
 
 C16_VARIANTS = [
     # name, size k/m, window, threads-sensitive
-    ("oligo", 3, None), ("oligo-c", 3, None), ("oligo-stdin", 3, None), ("cgr", 3, None), ("kcgr", 3, None),
+    ("oligo", 3, None), ("oligo-c", 3, None), ("oligo-stdin", 3, None), ("oligo-csv", 3, None), ("oligo-tsv-H", 3, None), ("cgr", 3, None), ("kcgr", 3, None),
     ("cov", 7, None), ("s2m-w0", 7, None), ("m2s-w0", 7, None), ("s2m-w9", 7, 9), ("m2s-w9", 7, 9), ("ctr", 10, None),
 ]
 
@@ -640,8 +640,15 @@ def c16_check(variant, recs, t, wd):
     open(inp, "wb").write(fasta_bytes(recs))
     out = os.path.join(wd, "out")
     stdin = None
+    odelim, oheader = b" ", False
     if name == "oligo":
         args = ["comp", "oligo", "-i", inp, "-o", out, "-k", str(kk)]
+    elif name == "oligo-csv":
+        args = ["comp", "oligo", "-i", inp, "-o", out, "-k", str(kk), "-p", "csv"]
+        odelim = b","
+    elif name == "oligo-tsv-H":
+        args = ["comp", "oligo", "-i", inp, "-o", out, "-k", str(kk), "-p", "tsv", "-H"]
+        odelim, oheader = b"\t", True
     elif name == "oligo-c":
         args = ["comp", "oligo", "-c", "-i", inp, "-o", out, "-k", str(kk)]
     elif name == "oligo-stdin":
@@ -674,13 +681,17 @@ def c16_check(variant, recs, t, wd):
         return ("crash", "%s: exit %d, stderr %r" % (cmdline, rc, err[-400:]))
     if name.startswith("oligo"):
         rows = lines_of(read(out))
+        if oheader and rows:
+            if rows[0].split(odelim) != [n.encode() for n in pm.header_names(kk)]:
+                return ("header-line", "%s: first line is not the header in the requested delimiter" % cmdline)
+            rows = rows[1:]
         if rows is None or len(rows) != len(recs):
             return ("row-count", "%s: %s rows for %d records" % (cmdline, None if rows is None else len(rows), len(recs)))
         for i, (row, r) in enumerate(zip(rows, recs)):
             v, tt = pm.oligo(r, kk)
-            toks = row.split(b" ")
+            toks = row.split(odelim)
             if len(toks) != len(v):
-                return ("row-length", "%s: row %d has %d values" % (cmdline, i, len(toks)))
+                return ("row-length", "%s: row %d has %d values in the requested delimiter, expected %d" % (cmdline, i, len(toks), len(v)))
             for c, tok in enumerate(toks):
                 val = float(tok)
                 if (val != v[c]) if name == "oligo-c" else (not pm.close(val, v[c], tt)):
@@ -880,6 +891,8 @@ def c17_runs(inputs):
         "cov small k7 (cli)": (cli_run(["cov", "-i", small, "-o", "@", "-k", "7", "-s", "5", "-c", "5", "-t", "2"]), ["kmers.counts", "kmers.vectors"]),
         "cov big k7 counts (cli)": (cli_run(["cov", "-i", big, "-o", "@", "-k", "7", "-s", "5", "-c", "6", "--counts", "-t", "3"]), ["kmers.counts", "kmers.vectors"]),
         "cov small alt=big k9": (cli_run(["cov", "-i", small, "-a", big, "-o", "@", "-k", "9", "-s", "5", "-c", "5"]), ["kmers.counts", "kmers.vectors"]),
+        "cov small k9": (cli_run(["cov", "-i", small, "-o", "@", "-k", "9", "-s", "5", "-c", "5", "-t", "2"]), ["kmers.counts", "kmers.vectors"]),
+        "cov small alt=clean k9": (cli_run(["cov", "-i", small, "-a", clean_b, "-o", "@", "-k", "9", "-s", "5", "-c", "5"]), ["kmers.counts", "kmers.vectors"]),
         "ctr tiny k12 (no k-mer)": (cli_run(["ctr", "-i", tiny, "-o", "@", "-k", "12", "-t", "2"]), ["kmers.counts"]),
         "cov no records k7": (cli_run(["cov", "-i", none, "-o", "@", "-k", "7"]), ["kmers.counts", "kmers.vectors"]),
     }
@@ -991,17 +1004,17 @@ def c03_cli(tier):
     d = fresh_dir("c03")
     inp = os.path.join(d, "in.fa")
     open(inp, "wb").write(b">a\nACGTTGCAAGCT\n>b\nNNACG\n")
-    jobs = [(k, preset, counts) for k in range(3, 8) for preset in ("csv", "tsv", "spc") for counts in (0, 1)]
+    jobs = [(k, preset, counts, t) for k in range(3, 8) for preset in ("csv", "tsv", "spc") for counts in (0, 1) for t in (0, 1, 3)]
 
     def do(job):
-        k, preset, counts = job
+        k, preset, counts, t = job
         out = os.path.join(fresh_dir("c03o"), "o.txt")
-        args = ["comp", "oligo", "-i", inp, "-o", out, "-k", str(k), "-p", preset, "-H"] + (["-c"] if counts else [])
+        args = ["comp", "oligo", "-i", inp, "-o", out, "-k", str(k), "-p", preset, "-H", "-t", str(t)] + (["-c"] if counts else [])
         rc, so, err, to = cli(args)
         rep.ev(1, 1)
         data = read(out)
         names = [n.encode() for n in pm.header_names(k)]
-        a = {"k": k, "preset": preset, "counts": counts}
+        a = {"k": k, "preset": preset, "counts": counts, "t": t}
         if rc != 0 or data is None:
             rep.violation("run-failed", k, "kmertools %s: exit %s %r" % (" ".join(args), rc, err[-200:]), "c03_cli", a)
             return
